@@ -286,6 +286,7 @@ def rule_dispatch(dm, getters):
     ds = [b for b in prog.bodies if b.name == DESCRIBE]
     if not ds:
         return [bad('TDESC', 'TDESC|describe', 'anchor lost: public ExprAST::describe not found')]
+    ds = [_render_root(prog, ds[0])]
     first = _rule_dispatch(dm, getters, ds[0])
     if not any(o.status == 'violated' for o in first):
         return first
@@ -298,6 +299,29 @@ def rule_dispatch(dm, getters):
                 o.what += ' [read with private helpers inlined]'
             return second
     return first
+
+
+def _render_root(prog, d0):
+    """`pub fn describe(&self) -> String { self.describe_with(&DescriptorManager::new()) }`: the public entry hands its
+    node, unchanged, to a private body that recurses over the tree; that body is the renderer the clauses speak about"""
+    if any(c.is_virtual and dyn_fn_class(c.term['arg_tys'][0] if c.term['arg_tys'] else '') == 'descriptor' for c in d0.live_calls):
+        return d0
+    cands = []
+    for c in d0.live_calls:
+        g = prog.by_id.get(c.ruid) if c.ruid else None
+        if g is None or g.is_closure or not c.args or g.locals[0]['ty'] != d0.locals[0]['ty']:
+            continue
+        o = single_origin(trace_operand(d0, c.args[0], through_calls=set(TRANSPARENT_CALLS)))
+        if o is None or o.kind != 'param' or o.data != 1 or o.proj:
+            continue
+        if g.id in prog.reach([g.id]) and any(cc.ruid == g.id for b2 in [prog.by_id[i] for i in prog.reach([g.id])] for cc in b2.live_calls):
+            cands.append(g)
+    if len(cands) == 1 and d0.locals[0]['ty'] == cands[0].locals[0]['ty']:
+        # the wrapper returns the callee's result as is
+        ro = single_origin(trace_local(d0, 0, (), through_calls=set()))
+        if ro is not None and ro.kind == 'callres' and ro.data.ruid == cands[0].id and not ro.proj:
+            return cands[0]
+    return d0
 
 
 def _rule_dispatch(dm, getters, d):
